@@ -163,6 +163,14 @@ func c11Effective(begin string, args []string) []string {
 		}
 	case "append":
 		eff = append(eff, "A")
+	case "argvsplit":
+		eff = []string{"B", "A"}
+	case "argvfunc":
+		eff = []string{"A"}
+	case "argvdelete":
+		if len(eff) >= 1 {
+			eff = eff[1:] // a deleted element is skipped
+		}
 	}
 	return eff
 }
@@ -796,7 +804,7 @@ func init() {
 	core.Register(&core.Check{
 		ID:    "C11",
 		Level: "model_checking",
-		Rule: "complete enumeration of generated programs {BEGIN in none/getline/getline v/ARGV[1] edit/ARGC edit/ARGV append/exit} x {one or two rules; patterns: none, expression, regex, NR ranges closing later/on the same record/never, range on field values} x " +
+		Rule: "complete enumeration of generated programs {BEGIN in none/getline/getline v/ARGV[1] edit/ARGC edit/ARGV append/operand list replaced by split() directly and through an array parameter/ARGV[1] deleted/exit} x {one or two rules; patterns: none, expression, regex, NR ranges closing later/on the same record/never, range on field values} x " +
 			"{actions of <= 2 operations from getline, getline v, getline < f, getline v < f, next, nextfile, exit k, each also inside a function (getline variable = local) and inside a loop (getline variable = array element)} x {END in trace/exit/getline}, in full-trace and lean-trace spelling, " +
 			"x operand lists (family ops1: every list of <= 3, thorough <= 4, operands from A, B, empty file, -, \"\", v=1, FS=,, missing file; other families: 4 to 16 fixed lists) x file fixtures with 0-3 records; plus a family of long runs (1300 records; next / nextfile / exit / getline / ranges inside functions, recursion and loops; reference evaluator only); " +
 			"state = one program, transition = one execution on the real interpreter with real files; every execution is compared with the reference evaluator (stdout, exit status, error/no error) and its trace is checked against invariants derived from the statement; distinct = distinct observations",
